@@ -114,7 +114,11 @@ class Match:
         @raise PopError:  Raised when the reference does not exist and default is not set.
         """
         try:
-            old_data = self.data
+            traverser_match = self._traverser_match
+            try:
+                old_data = traverser_match.parent.data[traverser_match.data_name]
+            except LookupError:
+                old_data = None
             del self.data
             return old_data
         except PopError as e:
